@@ -179,9 +179,55 @@ func Mutate(s string, toks []Token, kind string, i, j int) (string, bool) {
 	return "", false
 }
 
+// WriteString writes a quoted string whose runes are written as kinds says (p plain, e escape
+// sequence, b escaped backslash); the rune at index bad is one that no font maps, the others are
+// mapped by font "e".  variant varies the escapes used.
+func WriteString(kinds []string, bad, variant int) string {
+	var b strings.Builder
+	b.WriteByte('"')
+	for i, k := range kinds {
+		switch {
+		case i == bad && k == "p":
+			b.WriteString(Unmapped)
+		case i == bad: // an escape sequence that decodes to an unmapped rune
+			b.WriteString([]string{"\\" + Unmapped, "\\n", "\\t", "\\r"}[(variant+i)%4])
+		case k == "p":
+			b.WriteByte(byte('A' + (i+variant)%20))
+		case k == "e": // decodes to a mapped rune: the quote (font e), or an escaped letter
+			b.WriteString([]string{"\\\"", "\\B", "\\\""}[(variant+i)%3])
+		default:
+			b.WriteString("\\\\")
+		}
+	}
+	b.WriteByte('"')
+	return b.String()
+}
+
+// EscapeStrings lists quoted strings with 0..3 escape sequences before and after an unmapped rune,
+// for every escape the lexer accepts (backslash followed by any character; n, r, t are special).
+func EscapeStrings() []string {
+	var res []string
+	for _, esc := range []string{"\\\\", "\\\"", "\\n", "\\t", "\\r", "\\A", "\\" + Unmapped} {
+		for a := 0; a <= 3; a++ {
+			for c := 0; c <= 3; c++ {
+				if a+c == 0 {
+					continue
+				}
+				res = append(res, "\""+strings.Repeat(esc, a)+Unmapped+strings.Repeat(esc, c)+"\"")
+				if esc == "\\\\" || esc == "\\\"" {
+					res = append(res, "\""+strings.Repeat(esc, a)+"A"+strings.Repeat(esc, c)+"\"")
+				}
+			}
+		}
+	}
+	res = append(res, "\"\\\\\\\"\\n"+Unmapped+"\\\\\\\"\\\\\"", "\"A\\\\B\\\\C\\\\"+Unmapped+"\\\\\\\\\"")
+	return res
+}
+
 var soupWords = []string{"GSUB1", "GSUB2", "GSUB3", "GSUB4", "GSUB5", "GSUB6", "GPOS1", "GPOS2", "GPOS3", "GPOS4",
 	"GSUB7", "class", "inputclass", "backtrackclass", "lookaheadclass", "first", "second", "mark", "base", "to",
 	"x", "y", "dx", "dy", "_", "marks", "ligs", "lig", "rtl", "A", "B", "C", "X", "Y", "Z", "a", "zero", "nosuchglyph",
+	"\"\\\\\\\\\"", "\"\\\\\\\\\\\\\"", "\"" + Unmapped + "\\\\\\\\\"", "\"\\\"\\\"\\n\\t\"", "\"A\\\\\\\\B\"",
 	"\"AB\"", "\"A\"", "\"\"", "\"XYZabc\"", "\"A" + Unmapped + "BC\"", "\"" + Unmapped + "\"", "\"a\\\"b\"", "\"A\\nB\"", "\"unterminated",
 	"0", "1", "2", "3", "47", "48", "65535", "65536", "-1", "+5", "-32768", "32768", "99999999999999999999",
 	"->", "-", "|", "||", ",", ";", ":", "[", "]", "@", "/", "&", "=", "\n", "\n", "\t", "# comment", "#", "!", "$", "\\", "'",
